@@ -19,6 +19,7 @@
 using namespace h;
 
 // ====================================================================== hook
+static std::atomic<int> g_parked_now{0}; // parked minus unlinked (hint for the final drain only)
 static void verif_hook(int id, const void *ptr, intptr_t val)
 {
     Thr *t = tctx;
@@ -28,9 +29,11 @@ static void verif_hook(int id, const void *ptr, intptr_t val)
     {
     case IGRIS_VERIF_WAIT_PARKED:
         logev(E_PARK, t->id, t->cur_q, val != 0, t->cur_op, ptr, 0);
+        g_parked_now.fetch_add(1, std::memory_order_relaxed);
         break;
     case IGRIS_VERIF_WAIT_UNLINK:
         logev(E_UNLINK, t->id, t->cur_q, 0, t->cur_op, ptr, val);
+        g_parked_now.fetch_sub(1, std::memory_order_relaxed);
         break;
     case IGRIS_VERIF_WAIT_GAP:
         logev(E_GAPW, t->id, t->cur_q, 0, t->cur_op, ptr, 0);
@@ -63,6 +66,7 @@ static void case_begin(const char *suite, const CaseCfg &c, void (*diag)(void))
     g_failed.store(0);
     g_nts.store(0);
     g_progress.store(0);
+    g_parked_now.store(0);
     for (int i = 0; i <= MAXT; i++)
     {
         g_thr[i].reset(i);
@@ -75,7 +79,7 @@ static void case_begin(const char *suite, const CaseCfg &c, void (*diag)(void))
     g_watch.nthreads = c.nthreads;
     g_watch.suite = suite;
     g_watch.diagnose = diag;
-    g_watch.stall_s = 2.0;
+    g_watch.stall_s = 1.0;
     g_watch.abs_s = 100.0;
     watch_start(g_watch);
 }
@@ -396,7 +400,7 @@ namespace lk
         else
             vf::fail_nothrow("deadlock:lock", "all unfinished threads of the lock case are blocked; owner mark=%d", owner.load());
     }
-    static uint64_t count() { return vf::thorough() ? 6000 : 600; }
+    static uint64_t count() { return vf::thorough() ? 12000 : 600; }
     static void run(uint64_t idx)
     {
         vf::cls("lock");
